@@ -13,4 +13,4 @@ Extraction "extracted.ml"
   msg is_permanent is_transient class_ok required_class nats_situation_permanent
   sstep srun empty_store
   backoff_withinb cb_spec_step retry_loop calculate_backoff cb_call default_backoff round_jitterMin round_jitterMax round_maxRetries
-  kind_names decode check_trace check_guards check_env check_envT.
+  kind_names decode check_trace check_guards check_env check_envT check_envC.
